@@ -266,7 +266,11 @@ fn echoes(request: &Value, q: &Value) -> bool {
 
 pub fn panic_class(p: &crate::scenario::PanicInfo) -> String {
     let file = p.location.rsplit_once(':').map(|x| x.0).unwrap_or(&p.location);
-    let file = file.strip_prefix("/repo/rust/").unwrap_or(file);
+    // wherever the repository is checked out: identify the file from its crate directory on
+    let file = match file.find("routee-compass") {
+        Some(i) => &file[i..],
+        None => file,
+    };
     let file = match file.find("/.cargo/registry/src/") {
         Some(i) => file[i + 21..].splitn(2, '/').nth(1).unwrap_or(file),
         None => file,
